@@ -37,3 +37,177 @@ pub fn p0() {
    assert!(RelFullIndexRead::contains_key(&total, &(a, b)) == (st[a as usize][b as usize]));
    kani::cover!(true);
 }
+type Ix1 = RelIndexType1<(u8,), (u8,)>;
+fn fill1<const N: usize>(ix: &mut Ix1) -> [[u8;3];3] {
+   let mut cnt = [[0u8; 3]; 3];
+   for _ in 0..N {
+      if kani::any() {
+         let (k, v) = (any_d(), any_d());
+         ix.index_insert((k,), (v,));
+         cnt[k as usize][v as usize] += 1;
+      }
+   }
+   cnt
+}
+#[kani::proof]
+#[kani::unwind(6)]
+#[kani::stub(std::time::Instant::now, crate::stubs::instant_now)]
+#[kani::stub(std::time::Instant::elapsed, crate::stubs::instant_elapsed)]
+#[kani::stub(std::mem::swap, crate::stubs::mem_swap)]
+pub fn p2() {
+   let (mut new, mut delta, mut total) = (Ix1::default(), Ix1::default(), Ix1::default());
+   let cd = fill1::<2>(&mut delta);
+   let ct = fill1::<2>(&mut total);
+   RelIndexMerge::merge_delta_to_total_new_to_delta(&mut new, &mut delta, &mut total);
+   let q = any_d();
+   let mut got = [0u8; 3];
+   if let Some(it) = total.index_get(&(q,)) {
+      for v in it { got[v.0 as usize] += 1; }
+   }
+   for v in 0..3 { assert!(got[v] == cd[q as usize][v] + ct[q as usize][v]); }
+   kani::cover!(true);
+   std::mem::forget((new, delta, total));
+}
+#[kani::proof]
+#[kani::unwind(6)]
+pub fn p3() {
+   let mut total = Ix1::default();
+   let ct = fill1::<2>(&mut total);
+   let q = any_d();
+   let mut got = [0u8; 3];
+   if let Some(it) = total.index_get(&(q,)) {
+      for v in it { got[v.0 as usize] += 1; }
+   }
+   for v in 0..3 { assert!(got[v] == ct[q as usize][v]); }
+   kani::cover!(true);
+   std::mem::forget(total);
+}
+#[kani::proof]
+#[kani::unwind(4)]
+#[kani::stub(std::time::Instant::now, crate::stubs::instant_now)]
+#[kani::stub(std::time::Instant::elapsed, crate::stubs::instant_elapsed)]
+#[kani::stub(std::mem::swap, crate::stubs::mem_swap)]
+pub fn p4() {
+   let (mut new, mut delta, mut total) = (Ix1::default(), Ix1::default(), Ix1::default());
+   let cd = fill1::<2>(&mut delta);
+   let ct = fill1::<2>(&mut total);
+   RelIndexMerge::merge_delta_to_total_new_to_delta(&mut new, &mut delta, &mut total);
+   assert!(total.len() <= 3);
+   kani::cover!(true);
+   std::mem::forget((new, delta, total));
+}
+fn rt(c: &[[u8;3];3], k: usize) -> u8 { c[k][0] + c[k][1] + c[k][2] }
+#[kani::proof]
+#[kani::unwind(5)]
+pub fn v1() {
+   let mut total = Ix1::default();
+   let ct = fill1::<2>(&mut total);
+   let mut nkeys = 0; for k in 0..3 { if rt(&ct,k) > 0 { nkeys += 1; } }
+   assert!(RelIndexRead::len_estimate(&total) == nkeys);
+   assert!(RelIndexRead::is_empty(&total) == (nkeys == 0));
+   kani::cover!(true);
+   std::mem::forget(total);
+}
+#[kani::proof]
+#[kani::unwind(5)]
+pub fn v2() {
+   let mut total = Ix1::default();
+   let ct = fill1::<2>(&mut total);
+   let q = any_d();
+   let (mut seen, mut seen_q) = (0usize, 0u8);
+   for (k, vals) in total.iter_all() {
+      assert!(k.0 < 3);
+      seen += 1;
+      if k.0 == q { seen_q += 1; }
+      assert!(vals.len() == rt(&ct, k.0 as usize) as usize);
+   }
+   assert!(seen_q == (rt(&ct, q as usize) > 0) as u8);
+   kani::cover!(true);
+   std::mem::forget(total);
+}
+#[kani::proof]
+#[kani::unwind(5)]
+pub fn v3() {
+   let mut total = Ix1::default();
+   let ct = fill1::<2>(&mut total);
+   let q = any_d();
+   let (mut seen, mut seen_q) = (0usize, 0u8);
+   for (k, vals) in total.iter_all() {
+      assert!(k.0 < 3);
+      seen += 1;
+      if k.0 == q { seen_q += 1; }
+      let mut got = [0u8; 3];
+      for v in vals { assert!(v.0 < 3); got[v.0 as usize] += 1; }
+      let c = ct[k.0 as usize];
+      assert!(got[0] == c[0] && got[1] == c[1] && got[2] == c[2]);
+   }
+   assert!(seen_q == (rt(&ct, q as usize) > 0) as u8);
+   kani::cover!(true);
+   std::mem::forget(total);
+}
+#[kani::proof]
+#[kani::unwind(5)]
+pub fn v4() {
+   let mut total = Ix1::default();
+   let ct = fill1::<2>(&mut total);
+   let q = any_d();
+   let w = any_d();
+   let (mut seen, mut seen_q) = (0usize, 0u8);
+   for (k, vals) in total.iter_all() {
+      assert!(k.0 < 3);
+      seen += 1;
+      if k.0 == q { seen_q += 1; }
+      let s = vals.as_slice();
+      let mut n = 0u8;
+      let mut j = 0;
+      while j < s.len() { if s[j].0 == w { n += 1; } j += 1; }
+      assert!(n == ct[k.0 as usize][w as usize]);
+   }
+   assert!(seen_q == (rt(&ct, q as usize) > 0) as u8);
+   kani::cover!(true);
+   std::mem::forget(total);
+}
+#[kani::proof]
+#[kani::unwind(4)]
+#[kani::stub(std::time::Instant::now, crate::stubs::instant_now)]
+#[kani::stub(std::time::Instant::elapsed, crate::stubs::instant_elapsed)]
+#[kani::stub(std::mem::swap, crate::stubs::mem_swap)]
+pub fn p5() {
+   let (mut new, mut delta, mut total) = (Ix1::default(), Ix1::default(), Ix1::default());
+   let cd = fill1::<2>(&mut delta);
+   let ct = fill1::<2>(&mut total);
+   for k in 0..3 { kani::assume(rt(&cd, k) == 0 || rt(&ct, k) == 0); }
+   RelIndexMerge::merge_delta_to_total_new_to_delta(&mut new, &mut delta, &mut total);
+   assert!(total.len() <= 3);
+   kani::cover!(true);
+   std::mem::forget((new, delta, total));
+}
+#[kani::proof]
+#[kani::unwind(6)]
+#[kani::stub(std::alloc::realloc, crate::stubs::realloc_is_out_of_bound)]
+pub fn p6() {
+   let (mut delta, mut total) = (Ix1::default(), Ix1::default());
+   let cd = fill1::<2>(&mut delta);
+   let ct = fill1::<2>(&mut total);
+   let q = any_d();
+   let comb = RelIndexCombined::new(&total, &delta);
+   let mut got = [0u8; 3];
+   if let Some(it) = comb.index_get(&(q,)) { for v in it { got[v.0 as usize] += 1; } }
+   for v in 0..3 { assert!(got[v] == cd[q as usize][v] + ct[q as usize][v]); }
+   kani::cover!(true);
+   std::mem::forget((total, delta));
+}
+#[kani::proof]
+#[kani::unwind(6)]
+pub fn p7() {
+   let (mut delta, mut total) = (Ix1::default(), Ix1::default());
+   let cd = fill1::<2>(&mut delta);
+   let ct = fill1::<2>(&mut total);
+   let q = any_d();
+   let comb = RelIndexCombined::new(&total, &delta);
+   let mut got = [0u8; 3];
+   if let Some(it) = comb.index_get(&(q,)) { for v in it { got[v.0 as usize] += 1; } }
+   for v in 0..3 { assert!(got[v] == cd[q as usize][v] + ct[q as usize][v]); }
+   kani::cover!(true);
+   std::mem::forget((total, delta));
+}
